@@ -66,6 +66,8 @@ func Print(g *Grammar, o PrintOpts) string {
 		b.WriteString("{\npackage " + g.Pkg + "\n\n")
 		if !o.StubCode {
 			b.WriteString("import \"verif/harness/vrt\"\n")
+			// the initializer is copied verbatim: percent signs are not format verbs
+			b.WriteString("\nconst _ = 7 % 3 // 100%d %s %%\n")
 		}
 		if o.ExtraInit != "" {
 			b.WriteString(o.ExtraInit + "\n")
